@@ -141,4 +141,50 @@ def handleSites (j : Json) : Except String Json := do
     ("qualifier_key", match qualifierKey σ with | some q => jstr q | none => .null),
     ("col_scalar_subquery", jstr (colScalarSubqueryName σ))]
 
+/-- an entity described by its constructor call (what the harness builds on the Python side too) -/
+inductive Ent
+  | schema (s : Schema) | table (t : Table) | path (p : Path) | subquery (q : SubQuery) | column (c : Column)
+
+def entOfJson (cfg : N) (imp : Schema) : Json → Except String (Option Ent)
+  | .arr #[.str "Schema", .str s] => pure (some (.schema (Schema.mk? (some s.toList) cfg)))
+  | .arr #[.str "Table", .str s] =>
+    match Table.mk s.toList imp cfg with
+    | .ok (t, _) => pure (some (.table t))
+    | .error _ => pure none
+  | .arr #[.str "Path", .str s] => pure (some (.path (Path.mk s.toList)))
+  | .arr #[.str "SubQuery", .str raw, .str al] => pure (some (.subquery (SubQuery.mk (fun _ => 0) raw.toList (some al.toList))))
+  | .arr #[.str "Column", .str s, .arr ps] => do
+    let parents ← ps.toList.mapM (parentOfJson cfg imp)
+    pure (some (.column (parents.foldl Column.addParent (Column.mk s.toList))))
+  | j => throw s!"bad entity {j.compress}"
+
+/-- Python `a == b` between two entities (different classes never compare equal) -/
+def Ent.eq : Ent → Ent → Bool
+  | .schema a, .schema b => a.eq b
+  | .table a, .table b => a.eq b
+  | .path a, .path b => a.eq b
+  | .subquery a, .subquery b => a.eq b
+  | .column a, .column b => a.eq b
+  | _, _ => false
+
+def Ent.str : Ent → N
+  | .schema a => a.str | .table a => a.str | .path a => a.str | .subquery a => a.str | .column a => a.str
+
+/-- `{"cmd":"namesEq","ents":[e,…]}` → `{"str":[…|null],"eq":[[i,j],…]}`: printed names and every pair i<=j that
+    compares equal in the model (entities whose constructor raises are `null` and never equal) -/
+def handleEq (j : Json) : Except String Json := do
+  let cfg ← cfgOf j
+  let imp ← importDefaultOf j
+  let es ← (← j.getObjValAs? (Array Json) "ents").toList.mapM (entOfJson cfg imp)
+  let idx := (List.range es.length).zip es
+  let pairs := idx.flatMap fun (i, a) => idx.filterMap fun (k, b) =>
+    if i ≤ k then
+      match a, b with
+      | some a, some b => if a.eq b then some (Json.arr #[.num ⟨(i : Int), 0⟩, .num ⟨(k : Int), 0⟩]) else none
+      | _, _ => none
+    else none
+  pure <| Json.mkObj [
+    ("str", .arr (es.map fun e => match e with | some e => jstr e.str | none => .null).toArray),
+    ("eq", .arr pairs.toArray)]
+
 end SqlLineage.IO.Names
